@@ -144,6 +144,15 @@ def main():
         pre = [["program", list(libs)]] + ([["program", rlibs(rnd)]] if rnd.random() < 0.4 else [])
         h = pre + [["define", mod, nm]] + ([["program", list(libs)]] if rnd.random() < 0.3 else [])
         pjobs.append((h, libs))
+    # a project folder that is NOT on the import path holds a library of its own; a Program constructed with that folder as its
+    # working_dir must not make the library available to later programs of the process
+    projdir = os.path.join(os.path.dirname(libdir), "c19proj")
+    os.makedirs(projdir, exist_ok=True)
+    with open(os.path.join(projdir, "only_here.py"), "w") as fh:
+        fh.write("from mpilot.commands import Command\nclass CmdOnlyHere(Command):\n    pass\n")
+    wjobs = [([["program_wd", ["lib_a"], "c19proj"]], ["only_here"]),
+             ([["program_wd", ["mpilot.libraries.eems.basic"], "c19proj"], ["program", ["lib_a"]]], ["only_here", "lib_a"]),
+             ([["program_wd", ["lib_a"], "c19proj"]], ["lib_a"])]
     # a library whose import fails, is repaired and is requested again in the same process: the request gives what it gives in a
     # fresh process in which the repair has already happened
     fjobs = []
@@ -154,6 +163,7 @@ def main():
         res = list(ex.map(lambda j: child(libdir, j[0] + [["program", j[1]]]), jobs))
         pres = list(ex.map(lambda j: (child(libdir, j[0] + [["program", j[1]]]),
                                       child(libdir, [e for e in j[0] if e[0] != "program"] + [["program", j[1]]])), pjobs))
+        wres = list(ex.map(lambda j: (child(libdir, j[0] + [["program", j[1]]]), child(libdir, [["program", j[1]]])), wjobs))
         fres = []
         for h, libs in fjobs:      # sequential: they create and remove the settings file in the shared library folder
             a = child(libdir, h + [["program", libs]])
@@ -206,6 +216,14 @@ def main():
                           "what": "Program(libraries=%r) gives %s after the history %r but %s when the earlier Program constructions are left out of that history" % (
                               libs, short(a), h, short(b)),
                           "replay": {"history": h, "libraries": libs, "after_history": a, "without_earlier_programs": b}})
+    for (h, libs), (a, b) in zip(wjobs, wres):
+        oa, ob = a["out"][-1], b["out"][-1]
+        oa, ob = [oa[0], oa[1] if oa[0] != "error" else oa[1].split(":")[0]], [ob[0], ob[1] if ob[0] != "error" else ob[1].split(":")[0]]
+        dist["events"]["working_dir histories"] = dist["events"].get("working_dir histories", 0) + 1
+        if oa != ob:
+            fails.append({"sig": "C19:history-dependent",
+                          "what": "Program(libraries=%r) gives %s after a Program was constructed with working_dir=c19proj, but %s in a fresh process" % (libs, short(oa), short(ob)),
+                          "replay": {"history": h, "libraries": libs, "after_history": oa, "fresh": ob}})
     for (h, libs), (a, b) in zip(fjobs, fres):
         oa, ob = a["out"][-1], b["out"][-1]
         dist["events"]["failed-import histories"] = dist["events"].get("failed-import histories", 0) + 1
